@@ -59,3 +59,17 @@ func init() {
 		Real:       srvReal, Stub: srvStub,
 		ProbeNames: []string{"request-cancelled-by-flush", "cancelled-before-implementation", "cancelled-after-implementation-started", "f4-probe-unknown", "f4-probe-valid", "multi-message-segment"}})
 }
+
+func init() {
+	reg(&propCfg{ID: "C08", QuickRuns: 6000, QuickSecs: 40, ThoroughRuns: 300000, ThoroughSecs: 780, Chunk: 50,
+		RuleNote:   "C08: 1..3 connections with 2..12 requests each, a drawn subset of up to 3 (thorough 6) parked inside the implementation (in the callback or answering later from another goroutine); at every quiescence (before any release, after each release in scheduler-chosen order) every other written request must have its reply, and Tstat requests issued while the subset is parked must be answered; stratum 'shared-tag-groups' adds groups of 2..8 requests issued under one tag without waiting, checked for one-at-a-time execution and reply order.",
+		Real:       srvReal, Stub: srvStub,
+		ProbeNames: []string{"quiescence-with-requests-parked", "late-request-answered-while-others-parked", "shared-tag-group-of-3+", "group-member-parked-with-successors", "3+-held-simultaneously", "release-order-differs-from-arrival"}})
+}
+
+func init() {
+	reg(&propCfg{ID: "C11", QuickRuns: 6000, QuickSecs: 40, ThoroughRuns: 300000, ThoroughSecs: 780, Chunk: 50,
+		RuleNote:   "C11: a victim and a bystander connection run C03-style pipelined histories (fids attached, walked, opened, created, clunked, removed; up to 4 victim requests parked in the implementation); the victim's client end is closed, reset, or closed in the middle of a frame at a drawn step / at the first quiescence with requests parked / when idle; parked requests are released afterwards in scheduler-chosen order; then the bystander and a fresh connection are probed.",
+		Real:       srvReal, Stub: srvStub,
+		ProbeNames: []string{"cut-with-requests-parked", "3+-held-simultaneously", "release-order-differs-from-arrival"}})
+}
